@@ -278,6 +278,9 @@ func (i *interpreter) equalsV(t types.Type, x, y value) value {
 		if x.t == nil {
 			return true
 		}
+		if x.t == rtypeType {
+			return types.Identical(x.v.(rtype).t, yi.v.(rtype).t)
+		}
 		if !types.Comparable(x.t) {
 			panic(targetPanic{i.runtimeError("runtime error: comparing uncomparable type " + x.t.String())})
 		}
@@ -461,6 +464,9 @@ func writeKey(sb *strings.Builder, v value) bool {
 		} else {
 			sb.WriteString(v.t.String())
 			sb.WriteByte(':')
+			if v.t == rtypeType {
+				return writeKey(sb, v.v)
+			}
 			if !types.Comparable(v.t) {
 				panic(targetPanic{"runtime error: hash of unhashable type " + v.t.String()})
 			}
